@@ -114,6 +114,10 @@ def gen_softcopy(rng):
             acts.append("copyrgn %d %d %d %d %d %d" % (sx - ox, sy - oy, sx, sy, sx + sw, sy + sh))
         if rng.random() < 0.3:
             acts.append("draw %d %d %d %d %d" % (rect_in(rng, W, H) + (rng.randint(2, 99),)))
+        if rng.random() < 0.4:
+            # the application changes the cursor shape (smaller, larger, other hot spot)
+            ncw, nch = rng.randint(1, 6), rng.randint(1, 6)
+            acts.append("cursor %d %d %d %d" % (ncw, nch, rng.randint(0, ncw - 1), rng.randint(0, nch - 1)))
         rng.shuffle(acts)
         if rng.random() < 0.3:
             acts.insert(rng.randint(0, len(acts)), "update 0")
@@ -194,6 +198,9 @@ def gen_script(rng, nops):
             lines.append("update %d" % rng.randrange(nc))
         elif r < 0.915:
             settle(lines, rng.randrange(nc), W, H, ps, rng.choice([1, 2, None]))
+        elif r < 0.925:
+            # rfbSetCursor mid-session: a new shape of another size / hot spot
+            lines.append("cursor %d %d %d %d" % (rng.randint(1, 6), rng.randint(1, 6), rng.randint(0, 2), rng.randint(0, 2)))
         elif r < 0.935:
             lines.append("clock %d" % rng.choice([1, 999, 1000, 4999, 5001, 39999, 40001, 100000, 999999, 1000000, 3000000]))
         elif r < 0.96:
